@@ -104,6 +104,17 @@ def rule_TR2(rep, prog, q, ts):
         rep.saw(t.fn)
         rep.require(rid, t.clears(q.DIRTY), t.where, t.origin, "upgrade-keeps-dirty",
                     "_dispatch_queue_try_upgrade_full_width commits a state in which DIRTY may remain set", sample={"new": repr(t.new)})
+    # the width reserved for the pending barrier is added exactly once: on the paths that saw PENDING_BARRIER clear, and on every such path. A second
+    # reservation (the drain is re-run with the flag already set when a reader completed in between) leaves the width field above 'full' for ever
+    PB = q.c["DISPATCH_QUEUE_PENDING_BARRIER"]
+    for t in mine:
+        adds = [a for a in t.new.arith if a[0] == "+" and a[3] is None and a[2] == PB.bit_length() - 1]
+        seen_clear, seen_set = bool(t.old.k0 & PB), bool(t.old.k1 & PB)
+        rep.require(rid, bool(adds) == seen_clear and (seen_clear or seen_set), t.where, t.origin, "upgrade-pending-width-reserved-once",
+                    "_dispatch_queue_try_upgrade_full_width %s the pending-barrier width on a path where PENDING_BARRIER was %s: the reservation must be made exactly when "
+                    "the flag is found clear - made again with the flag already set, the width field never comes back below full and the barrier and everything behind it "
+                    "are stranded" % ("adds" if adds else "does not add", "found clear" if seen_clear else "found set" if seen_set else "not tested"),
+                    sample={"adds": bool(adds), "pending_clear": seen_clear})
     ib = [t for t in mine if t.sets(q.IN_BARRIER) or any(a[0] == "+" and a[3] == q.IN_BARRIER for a in t.new.arith)]
     nb = [t for t in mine if t not in ib]
     rep.require(rid, bool(ib) and bool(nb), mine[0].where if mine else "?", "_dispatch_queue_try_upgrade_full_width", "upgrade-arms",
@@ -194,6 +205,107 @@ def rule_SB5(rep, prog, q):
             rep.require(rid, ok, c.loc, name, "barrier-api-drops-flag:%s->%s" % (name, c.callee),
                         "%s delegates to %s with dc_flags lacking DC_FLAG_BARRIER: for block objects with private data the item would run as an ordinary "
                         "reader and overlap other items" % (name, c.callee), sample={"api": name, "callee": c.callee})
+
+
+def rule_SB11(rep, prog, q):
+    rid = rep.rule("C04-SB11", "every way of submitting a barrier marks the work item itself: dispatch_barrier_async(_f) initialise the continuation with "
+                   "DC_FLAG_BARRIER (the flags argument of _dispatch_continuation_async is not what the queue reads), and a block object created with "
+                   "DISPATCH_BLOCK_BARRIER gets DC_FLAG_BARRIER whichever sync/async API it is submitted with", floor=12)
+    B = q.c["DC_FLAG_BARRIER"]
+    for name in ("dispatch_barrier_async", "dispatch_barrier_async_f", "_dispatch_barrier_async_detached_f"):
+        fn = prog.fn(name, required=False)
+        if fn is None:
+            continue
+        rep.saw(fn)
+        inits = [c for c in fn.all_insts() if c.op == "call" and c.callee and c.callee.startswith(("_dispatch_continuation_init", "_dispatch_async_f_slow"))]
+        stores = [st for st in fn.all_insts() if st.op == "store" and "dc_flags" in prog.fields(st)]
+        if not inits and not stores:
+            rep.unknown(rid, "anchor vanished: %s neither initialises a continuation through a known helper nor stores dc_flags" % name)
+        for c in inits:
+            ok = C02_carries(prog, q, fn, c.ops[-1])
+            rep.require(rid, ok, c.loc, name, "barrier-async-item-not-marked:%s->%s" % (name, c.callee),
+                        "%s initialises its continuation through %s with dc_flags lacking DC_FLAG_BARRIER: the queue reads the barrier-ness from dc->dc_flags, so "
+                        "the item is admitted as an ordinary reader of a concurrent queue and overlaps other items" % (name, c.callee), sample={"api": name, "callee": c.callee})
+        for st in stores:
+            ok = C02_carries(prog, q, fn, st.ops[0])
+            rep.require(rid, ok, st.loc, name, "barrier-async-item-not-marked:%s:store" % name,
+                        "%s stores dc_flags without DC_FLAG_BARRIER" % name, sample={"api": name, "store": st.loc})
+    # block objects: concrete evaluation of the flag plumbing for every combination of the creation flag and the caller's flags
+    k = consts.get(["DISPATCH_BLOCK_BARRIER"], srcdir=q.srcdir)
+    BB = k["DISPATCH_BLOCK_BARRIER"]
+    fn = prog.fn("_dispatch_sync_block_with_privdata")
+    rep.saw(fn)
+    lds = [l for l in fn.all_insts() if l.op == "load" and "dbpd_flags" in prog.fields(l)]
+    syncs = [c for c in fn.all_insts() if c.op == "call" and c.callee and c.callee.startswith(("_dispatch_sync_f", "_dispatch_barrier_sync_f", "_dispatch_sync_invoke", "_dispatch_async_and_wait_f"))]
+    if not lds or not syncs:
+        rep.unknown(rid, "anchor vanished in _dispatch_sync_block_with_privdata (dbpd_flags loads=%d, sync submissions=%d)" % (len(lds), len(syncs)))
+    else:
+        for bflags in (BB, BB | 0x8, 0, 0x8):
+            for inflags in (0, B):
+                env = {l.id: bflags for l in lds}
+                env[("a", 2)] = inflags
+                # the voucher / priority arms do not influence the flag: treat their tests as false
+                hit, env = concrete_walk_any(fn, env, lambda i: i in syncs)
+                if hit is None:
+                    rep.unknown(rid, "could not follow _dispatch_sync_block_with_privdata concretely for block flags %#x" % bflags)
+                    continue
+                v = ceval(fn, hit.ops[-1], {k_: v_ for k_, v_ in env.items() if not isinstance(v_, tuple)})
+                marked = ("barrier" in hit.callee) or (v is not None and bool(v & B))
+                want = bool(bflags & BB) or bool(inflags & B)
+                rep.require(rid, marked == want, hit.loc, fn.name, "block-sync-barrier:%#x:%#x" % (bflags, inflags),
+                            "_dispatch_sync_block_with_privdata submits a block object created with flags %#x (caller flags %#x) through %s with dc_flags %s: %s"
+                            % (bflags, inflags, hit.callee, hex(v) if v is not None else "?", "a DISPATCH_BLOCK_BARRIER block handed to plain dispatch_sync must "
+                               "still run as a barrier" if want else "a non-barrier block must not be turned into a barrier"),
+                            sample={"block_flags": bflags, "caller_flags": inflags, "barrier": marked})
+
+
+    fn = prog.fn("_dispatch_continuation_init_slow")
+    rep.saw(fn)
+    lds = [l for l in fn.all_insts() if l.op == "load" and "dbpd_flags" in prog.fields(l)]
+    old = [l for l in fn.all_insts() if l.op == "load" and "dc_flags" in prog.fields(l)]
+    sts = [st for st in fn.all_insts() if st.op == "store" and "dc_flags" in prog.fields(st)]
+    if not lds or not sts:
+        rep.unknown(rid, "anchor vanished in _dispatch_continuation_init_slow (dbpd_flags loads=%d, dc_flags stores=%d)" % (len(lds), len(sts)))
+        return
+    for bflags in (BB, BB | 0x8, 0, 0x8):
+        for inflags in (0, B):
+            env = {l.id: bflags for l in lds}
+            env.update({l.id: inflags | 0x4 for l in old})
+            hit, env = concrete_walk_any(fn, env, lambda i: i in sts)
+            if hit is None:
+                rep.unknown(rid, "could not follow _dispatch_continuation_init_slow concretely for block flags %#x" % bflags)
+                continue
+            v = ceval(fn, hit.ops[0], {k_: v_ for k_, v_ in env.items() if not isinstance(v_, tuple)})
+            want = bool(bflags & BB) or bool(inflags & B)
+            rep.require(rid, v is not None and bool(v & B) == want, hit.loc, fn.name, "block-async-barrier:%#x:%#x" % (bflags, inflags),
+                        "_dispatch_continuation_init_slow gives a block object created with flags %#x (continuation flags so far %#x) the dc_flags %s: %s"
+                        % (bflags, inflags | 0x4, hex(v) if v is not None else "?", "a DISPATCH_BLOCK_BARRIER block submitted with dispatch_async / "
+                           "dispatch_group_async / as a handler must run as a barrier" if want else "a non-barrier block must not be turned into a barrier"),
+                        sample={"block_flags": bflags, "flags_in": inflags, "barrier": want})
+
+
+def concrete_walk_any(fn, env, stop):
+    """concrete_walk, but a branch whose condition is not determined by env takes its FALSE arm (used where the undetermined tests guard optional extras)"""
+    b, prev = fn.blocks[0], None
+    for _ in range(400):
+        for i in b.insts:
+            if i.op == "phi" and prev is not None:
+                for v, frm in i.ops:
+                    if frm == prev.id:
+                        x = ceval(fn, v, {k_: v_ for k_, v_ in env.items() if not isinstance(v_, tuple)})
+                        env[i.id] = x if x is not None else ("sym", tuple(v[:2]))
+            if stop(i):
+                return i, env
+        t = b.term
+        if t.op != "br":
+            return None, env
+        if t.ops:
+            c = ceval(fn, t.ops[0], {k_: v_ for k_, v_ in env.items() if not isinstance(v_, tuple)})
+            nb = b.succs[0 if c else 1]
+        else:
+            nb = b.succs[0]
+        prev, b = b, nb
+    return None, env
 
 
 def C02_carries(prog, q, fn, op):
@@ -440,8 +552,14 @@ def run(rep, tier="quick", srcdir=None, only=None):
         rule_MP4(rep, prog, q, ts)
     if want("C04-SB5"):
         rule_SB5(rep, prog, q)
+    if want("C04-SB11"):
+        rule_SB11(rep, prog, q)
     if want("C04-MP6"):
         rule_MP6(rep, prog, q)
+    if want("C10-SB4"):
+        # dispatch_apply's iterations count as (non-barrier) items of the queue only because the apply is submitted to it (shared with C10)
+        from . import C10
+        C10.rule_SB4(rep, prog)
     if want("C04-TR7"):
         rule_TR7(rep, prog, q, ts)
     if want("C04-MP8"):
